@@ -43,6 +43,9 @@ type Exec struct {
 	model        Model // satisfies pc, or nil
 	facts        *factStore
 	clock        *Term
+	locks        map[string]*[2]int
+	ignoreGo     bool
+	oracles      map[string]*Term
 	summaryCalls map[string][][2]*Term
 	sleeps       int
 	usedFresh    bool
